@@ -182,12 +182,12 @@ func (p *Pool) Run(j Job) Result {
 				var jr struct {
 					ID     int
 					Exit   int
-					Stdout string
-					Stderr string
+					Stdout []byte
+					Stderr []byte
 					Panic  string
 				}
 				if r.err == nil && json.Unmarshal(r.line, &jr) == nil && jr.ID == w.seq {
-					res = Result{Exit: jr.Exit, Stdout: jr.Stdout, Stderr: jr.Stderr}
+					res = Result{Exit: jr.Exit, Stdout: string(jr.Stdout), Stderr: string(jr.Stderr)}
 					ok = true
 				}
 			case <-time.After(Horizon):
@@ -243,7 +243,14 @@ func (p *Pool) cross(j Job, got Result) {
 			os.WriteFile(filepath.Join(filepath.Dir(alt), "go.mod"), b, 0o666)
 		}
 	}
-	want := p.t.RunCLI(alt, j.Args...)
+	// an absolute path inside the job directory (e.g. -o $PWD/sub) is re-based onto the sibling directory
+	args := make([]string, len(j.Args))
+	for i, a := range j.Args {
+		args[i] = strings.ReplaceAll(a, j.Dir, alt)
+	}
+	want := p.t.RunCLI(alt, args...)
+	want.Stdout = strings.ReplaceAll(want.Stdout, alt, "<DIR>")
+	got.Stdout = strings.ReplaceAll(got.Stdout, j.Dir, "<DIR>")
 	msg := ""
 	if want.Exit != got.Exit || NormStdout(want.Stdout) != NormStdout(got.Stdout) {
 		msg = fmt.Sprintf("exit/stdout differ: cli=%d %q batch=%d %q", want.Exit, want.Stdout, got.Exit, got.Stdout)
